@@ -11,6 +11,9 @@
 //!   fs torn in=<behaviours.ndjson> out=<trace.ndjson> ps=.. block=<b> seeds=<n>
 //!       the histories that end in a crash, executed with `block_size` set under many fs seeds; every distinct
 //!       post-crash image is recorded as a run (membership in the permitted set is decided by TLC).
+//!   fs extend in=<behaviours.ndjson> out=<trace.ndjson> ps=.. dirs=.. depth=<n> judge=c10|c07
+//!       behaviours on which the code left the ImplSpec, extended by every sequence of directory syncs (and a
+//!       crash) and recorded for the PropSpec alone.
 //!   fs random seed=<n> runs=<n> len=<n> out=<trace.ndjson> [crash=<percent>] [fe=..] [rich=0|1]
 //!       seeded random histories on the real code, recorded as one NDJSON trace (reset / op events).
 //!
@@ -574,7 +577,7 @@ fn main_replay(args: &[String]) {
                 }
                 "prefix" => prefix += 1,
                 "drift" => {
-                    if drift.len() < 20 {
+                    if drift.len() < 150 {
                         drift.push(json!({"line": li, "detail": o.detail, "behaviour": beh}));
                     } else {
                         drift.push(json!({"line": li}));
@@ -620,7 +623,7 @@ fn main_replay(args: &[String]) {
     let summary = json!({
         "behaviours": total, "ok": okc, "nontrivial": nontriv, "prefix_divergent": prefix,
         "known": known.iter().map(|(k, (n, w))| json!({"devs": k, "count": n, "witness": w})).collect::<Vec<_>>(),
-        "unexplained": unexplained, "drift_count": drift.len(), "drift": drift.iter().take(20).collect::<Vec<_>>(),
+        "unexplained": unexplained, "drift_count": drift.len(), "drift": drift.iter().take(150).collect::<Vec<_>>(),
         "kind_mismatch": kinds.iter().map(|(k, (n, p))| json!({"what": k, "count": n, "predicted_by_impl": p})).collect::<Vec<_>>(),
         "div_trace": tpath, "div_runs": run_id, "samples": samples,
     });
@@ -793,12 +796,22 @@ fn main_random(args: &[String]) {
     let out = util::arg(args, "out").expect("out=");
     let fe = util::arg(args, "fe").unwrap_or("mix".into());
     let crash_pct = util::arg_u64(args, "crash", 0) as u32;
-    let rich = util::arg_u64(args, "rich", 1) == 1;
+    let richness = util::arg_u64(args, "rich", 1);
+    let rich = richness >= 1;
     let dir_rename = util::arg_u64(args, "dir_rename", 0) == 1;
     let knob = util::arg_u64(args, "knob", 0) == 1;
     let maxh = util::arg_u64(args, "maxh", 2) as usize;
-    let files: Vec<&'static str> = if rich { vec!["/a", "/b", "/d/a", "/d/b", "/e/a"] } else { vec!["/a", "/b", "/d/a"] };
-    let dirs: Vec<&'static str> = if rich { vec!["/d", "/e"] } else { vec!["/d"] };
+    // rich=2: nested directories (/d/e below /d) with a file in the deepest one
+    let files: Vec<&'static str> = match richness {
+        0 => vec!["/a", "/b", "/d/a"],
+        1 => vec!["/a", "/b", "/d/a", "/d/b", "/e/a"],
+        _ => vec!["/a", "/d/a", "/d/e/a", "/e/a"],
+    };
+    let dirs: Vec<&'static str> = match richness {
+        0 => vec!["/d"],
+        1 => vec!["/d", "/e"],
+        _ => vec!["/d", "/d/e", "/e"],
+    };
     let mut ps: Vec<String> = vec!["/".to_string()];
     ps.extend(files.iter().map(|s| s.to_string()));
     ps.extend(dirs.iter().map(|s| s.to_string()));
@@ -1054,6 +1067,69 @@ fn main_torn(args: &[String]) {
     println!("{hists} crash histories x {seeds} seeds with block_size {block}: {runs} distinct outcomes recorded, {multi} histories with more than one image, {torn} with more than two");
 }
 
+// ---------------------------------------------------------------------------------------------
+// drift extension: behaviours on which the code left the ImplSpec (but not the reference) are no longer covered
+// by the transition cover -- their continuations start from a state the model does not know.  Each is extended
+// by every sequence of <= depth directory syncs (and, judge c07, a crash) and recorded for the PropSpec alone.
+
+fn main_extend(args: &[String]) {
+    let inp = util::arg(args, "in").expect("in=");
+    let out = util::arg(args, "out").expect("out=");
+    let maxh = util::arg_u64(args, "maxh", 1) as usize;
+    let depth = util::arg_u64(args, "depth", 2) as usize;
+    let fe = util::arg(args, "fe").unwrap_or("std".into());
+    let c07 = util::arg(args, "judge").as_deref() == Some("c07");
+    let exact = util::arg_u64(args, "exact", 0) == 1; // re-execute a recorded run as it is
+    let ps: Vec<String> = util::arg(args, "ps").expect("ps=").split(',').map(|s| s.to_string()).collect();
+    let dirs: Vec<String> = util::arg(args, "dirs").expect("dirs=").split(',').map(|s| s.to_string()).collect();
+    let text = std::fs::read_to_string(&inp).expect("read behaviours");
+    // all sequences of directory syncs up to the depth
+    let mut seqs: Vec<Vec<String>> = vec![vec![]];
+    let mut frontier: Vec<Vec<String>> = vec![vec![]];
+    for _ in 0..depth {
+        let mut next = Vec::new();
+        for s in &frontier {
+            for d in &dirs {
+                let mut t = s.clone();
+                t.push(d.clone());
+                next.push(t);
+            }
+        }
+        seqs.extend(next.iter().cloned());
+        frontier = next;
+    }
+    let mut all: Vec<Value> = Vec::new();
+    let mut runs = 0u64;
+    for (li, line) in text.lines().enumerate() {
+        if line.trim().is_empty() {
+            continue;
+        }
+        let beh: Value = serde_json::from_str(line).expect("behaviour json");
+        let mut base: Vec<Value> = beh["h"].as_array().map(|a| a.iter().map(|e| e["op"].clone()).collect()).unwrap_or_default();
+        base.push(beh["last"]["op"].clone());
+        for seq in &seqs {
+            if (!c07 && !exact && seq.is_empty()) || (exact && !seq.is_empty()) {
+                continue;
+            }
+            let mut ops = base.clone();
+            ops.extend(seq.iter().map(|d| json!({"k": "sync_dir", "p": d})));
+            if c07 && !exact {
+                ops.push(json!({"k": "crash", "ps": ps}));
+            }
+            runs += 1;
+            let mut host = Host::new(maxh, li as u64 + 1, &fe, FsConfig::default());
+            all.push(json!({"ev": "reset", "run": runs, "i": 0, "line": li, "ps": ps, "st": 0, "hasst": false}));
+            for (i, op) in ops.iter().enumerate() {
+                let r = host.exec(op);
+                let v = if c07 || op["k"] == json!("crash") { json!([]) } else { host.view(&ps) };
+                all.push(json!({"ev": "op", "run": runs, "i": i + 1, "line": li, "op": op, "res": r, "view": v, "st": 0, "hasst": false}));
+            }
+        }
+    }
+    util::write_ndjson(&out, &all);
+    println!("{runs} extended runs");
+}
+
 fn main() {
     let args: Vec<String> = std::env::args().skip(1).collect();
     match args.first().map(|s| s.as_str()) {
@@ -1061,6 +1137,7 @@ fn main() {
         Some("random") => main_random(&args[1..]),
         Some("simreplay") => main_simreplay(&args[1..]),
         Some("torn") => main_torn(&args[1..]),
+        Some("extend") => main_extend(&args[1..]),
         _ => {
             eprintln!("usage: fs replay|random key=value ...");
             std::process::exit(2);
